@@ -702,11 +702,13 @@ func parseImportsExportsMap(source logger.Source, log logger.Log, json js_ast.Ex
 				// not starting with ".", throw an Invalid Package Configuration error.
 				// This only applies to the top-level object. In a nested object every
 				// key is a condition, and a key starting with "." is a condition that
-				// is never active.
+				// is never active. It also only applies to "exports". Node has no such
+				// rule for "imports", where a key that doesn't start with "#" is a key
+				// that is never matched.
 				curIsConditionalSugar := !strings.HasPrefix(key, ".")
 				if i == 0 {
 					isConditionalSugar = curIsConditionalSugar
-				} else if isConditionalSugar != curIsConditionalSugar && expr.Data == json.Data {
+				} else if isConditionalSugar != curIsConditionalSugar && expr.Data == json.Data && propertyKey == "exports" {
 					prevEntry := mapData[i-1]
 					log.AddIDWithNotes(logger.MsgID_PackageJSON_InvalidImportsOrExports, logger.Warning, &tracker, keyRange,
 						"This object cannot contain keys that both start with \".\" and don't start with \".\"",
